@@ -58,7 +58,7 @@ Definition ri_access_table : list string := [
   "loom/wait_close.go:WaitClose.Close|if( A:LoadInt32:state ){ S:mutex.Lock defer{ func{ S:mutex.Unlock } } if( R:state ){ if( R:state ){ close:closeChan } else{ W:closeChan } defer{ A:StoreInt32:state } if( ){ C:callback ret } } } ret";
   "loom/wait_close.go:WaitClose.C|if( A:LoadInt32:state ){ C:checkInitSlow } R:closeChan ret";
   "loom/wait_close.go:WaitClose.IsClosed|A:LoadInt32:state ret";
-  "loom/wait_close.go:WaitClose.WaitUtil|if( A:LoadInt32:state ){ C:checkInitSlow } select{ case{ recv:closeChan ret } case{ recv:C ret } }";
+  "loom/wait_close.go:WaitClose.WaitUtil|if( A:LoadInt32:state ){ C:checkInitSlow } select{ case{ recv:closeChan ret } case{ default } } select{ case{ recv:closeChan ret } case{ recv:C select{ case{ recv:closeChan ret } case{ default ret } } } }";
   "loom/wait_close.go:WaitClose.assetCloseChanNotNil|if( R:closeChan ){ R:state A:LoadInt32:state }";
   "loom/wait_close.go:WaitClose.checkInitSlow|S:mutex.Lock if( R:state ){ W:closeChan A:StoreInt32:state } S:mutex.Unlock";
   "loom/wait_close.go:init|close:globalClosedChan";
@@ -145,7 +145,7 @@ Definition ri_waitclose_chan_rows : list string := [
   "loom/wait_close.go:WaitClose.checkInitSlow|S:mutex.Lock if( R:state ){ W:closeChan A:StoreInt32:state } S:mutex.Unlock";
   "loom/wait_close.go:WaitClose.Close|if( A:LoadInt32:state ){ S:mutex.Lock defer{ func{ S:mutex.Unlock } } if( R:state ){ if( R:state ){ close:closeChan } else{ W:closeChan } defer{ A:StoreInt32:state } if( ){ C:callback ret } } } ret";
   "loom/wait_close.go:WaitClose.C|if( A:LoadInt32:state ){ C:checkInitSlow } R:closeChan ret";
-  "loom/wait_close.go:WaitClose.WaitUtil|if( A:LoadInt32:state ){ C:checkInitSlow } select{ case{ recv:closeChan ret } case{ recv:C ret } }"
+  "loom/wait_close.go:WaitClose.WaitUtil|if( A:LoadInt32:state ){ C:checkInitSlow } select{ case{ recv:closeChan ret } case{ default } } select{ case{ recv:closeChan ret } case{ recv:C select{ case{ recv:closeChan ret } case{ default ret } } } }"
 ].
 
 Definition ri_instances : list (string * rc_pub * list string) := [
